@@ -122,6 +122,54 @@ def check_iso(sc):
     return None
 
 
+def with_temperature(sc, T):
+    d = json.loads(json.dumps(sc))
+    d["temperature"] = [T] * len(d["thickness"])
+    if d.get("substrate"):
+        d["substrate"]["T"] = T
+    d["atmosphere"] = dict(tb_down=T, tb_up=0.0, trans=1.0)
+    return d
+
+
+def check_iso_sequence(sc):
+    """three isothermal scenes at three temperatures simulated in one call with a list of (multi-frequency) sensors, one per scene - the
+    documented pairwise form of Model.run: every scene radiates at its own temperature at every frequency"""
+    from smrt import make_model, sensor_list
+    T0 = sc["temperature"][0]
+    Ts = [T0 - 20.0, T0, min(T0 + 20.0, 300.0)]
+    f = sc["frequency"]
+    freqs = [f, 0.8 * f, 0.6 * f]
+    meds = [scenes.medium(with_temperature(sc, T)) for T in Ts]
+    m = make_model(sc["emmodel"], "dort", rtsolver_options=dict(n_max_stream=sc["nmax"]), emmodel_options=sc.get("emmodel_options"))
+    res = m.run([sensor_list.passive(freqs, [25., 50.]) for _ in Ts], meds)
+    da = res.data
+    dev = 0.0
+    for k, T in enumerate(Ts):
+        v = np.asarray(da.isel(snowpack=k).values, dtype=float)
+        if v.size != len(freqs) * 2 * 2 or not np.all(np.isfinite(v)):
+            return float("inf"), 0.0
+        dev = max(dev, float(np.max(np.abs(v - T))))
+    lim = 1e-6 if exact_case(sc) else 3.0
+    return (dev, lim) if dev > lim else None
+
+
+def check_iso_update(sc):
+    """the column is built at another temperature and then set to T through the layers' update(): it radiates at T"""
+    from smrt import make_model, sensor_list
+    T = sc["temperature"][0]
+    other = T - 25.0 if T > 150 else T + 25.0
+    d = with_temperature(sc, T)
+    d["temperature"] = [other] * len(d["thickness"])
+    med = scenes.medium(d)
+    for lay in med.layers:
+        lay.update(temperature=T)
+    m = make_model(sc["emmodel"], "dort", rtsolver_options=dict(n_max_stream=sc["nmax"]), emmodel_options=sc.get("emmodel_options"))
+    tb = np.asarray(m.run(sensor_list.passive(sc["frequency"], [0., 25., 40., 55.]), med).data.values)
+    dev = float(np.max(np.abs(tb - T)))
+    lim = 1e-6 if exact_case(sc) else 3.0
+    return (dev, lim) if (not np.all(np.isfinite(tb)) or dev > lim) else None
+
+
 def iso_scene(rng, em, ms, nlayer=None, lossless=None, substrate="random"):
     T = round(float(rng.uniform(200, 272)), 2)
     lossless = bool(rng.random() < 0.5) if lossless is None else lossless
@@ -184,6 +232,24 @@ def oracle(ctx, hints, effort):
         todo.append(dict(thickness=ths, density=[320.0] * len(ths), temperature=[T] * len(ths), microstructure="exponential", frequency=f,
                          micro=dict(corr_length=[cl] * len(ths)), substrate=dict(kind="soil_wegmuller", T=T, eps=[8.0, 1.5], params=dict(roughness_rms=0.01)),
                          atmosphere=dict(tb_down=T, tb_up=0.0, trans=1.0), emmodel="iba", nmax=16, assembly=0))
+    # other ways the same scene reaches the solver: a list of sensors paired with a list of media; temperatures set through update()
+    for j, sc in enumerate([t for t in todo if "emmodel" in t and t.get("ice_permittivity") is None and len(t["thickness"]) == 1
+                            and "interface" not in t][:2 if effort == "routine" else 10]):
+        for how, fn in (("sensor-sequence", check_iso_sequence), ("update", check_iso_update)):
+            evals += 3
+            try:
+                r = fn(sc)
+            except AssertionError:
+                continue
+            except Exception as e:  # noqa
+                from smrt.core.error import SMRTError
+                if isinstance(e, (SMRTError, Warning)):
+                    continue
+                raise
+            if r is not None:
+                key = f"isothermal:{how}"
+                findings.setdefault(key, Finding(key, f"isothermal scene at {sc['temperature'][0]} K delivered through {how}: max |Tb - T| = {r[0]:.3g} K",
+                                                 dict(sc, _how=how), r[0], f"<= {r[1]} K"))
     for sc in todo:
         evals += 1
         try:
@@ -206,5 +272,7 @@ def oracle(ctx, hints, effort):
 
 
 def replay(inp, rp=None):
-    r = check_iso(inp)
+    how = inp.get("_how")
+    sc = {k: v for k, v in inp.items() if k != "_how"}
+    r = check_iso_sequence(sc) if how == "sensor-sequence" else check_iso_update(sc) if how == "update" else check_iso(sc)
     return Finding("?", "isothermal deviation", inp, r[0], f"<= {r[1]}") if r else None
